@@ -2,12 +2,16 @@
 (***************************************************************************)
 (* C18 - validation of a SAML LogoutResponse by the service provider, as a *)
 (* step machine with one action per step of service_provider.go            *)
-(*   ValidateLogoutResponseRequest   :1626  (query wins over form)         *)
-(*   ValidateLogoutResponseForm      :1640  base64 -> xrv -> etree -> root *)
-(*   ValidateLogoutResponseRedirect  :1680  base64 -> bounded inflate ->.. *)
-(*   validateSignature               :1263  (+ goxmldsig Validate)         *)
+(*   ValidateLogoutResponseRequest   :1645  (query wins over form)         *)
+(*   ValidateLogoutResponseForm      :1659  base64 -> xrv -> etree -> root *)
+(*   ValidateLogoutResponseRedirect  :1704  base64 -> bounded inflate ->.. *)
+(*   validateSignature               :1282  Signature child, TRUST ROOTS   *)
+(*                                          (metadata | fingerprint |      *)
+(*                                          pinned), + goxmldsig Validate  *)
+(*   getIDPSigningCerts              :385   use "signing" or omitted       *)
+(*   getCertBasedOnFingerprint       :428   KeyInfo certificate by digest  *)
 (*   unmarshalElement / LogoutResponse.UnmarshalXML                        *)
-(*   validateLogoutResponse          :1722  Destination, freshness (WALL   *)
+(*   validateLogoutResponse          :1751  Destination, freshness (WALL   *)
 (*                                          clock), Issuer, Status         *)
 (*                                                                         *)
 (* Abstractions.  Strings are their relation to the expected value (eq /   *)
@@ -22,6 +26,13 @@
 (*   over   "root" iff DigestValue is the digest of the present root minus *)
 (*          this Signature element, else "other"                           *)
 (*   shape  ok | bad (Signature element without SignedInfo/SignatureValue) *)
+(*                                                                         *)
+(* The trust configuration of the ServiceProvider is a dimension: what     *)
+(* sp.IDPMetadata lists (key descriptors with their use and certificates), *)
+(* a pinned IDPCertificate, an IDPCertificateFingerprint + algorithm, and  *)
+(* their combinations (TrustOf).  The Status element is a structure: the   *)
+(* top-level StatusCode class, the class of a StatusCode NESTED in it, and *)
+(* optional StatusMessage / StatusDetail.                                  *)
 (*                                                                         *)
 (* Named deviations.  The pinned tree dereferences doc.Root() and          *)
 (* resp.Issuer without a guard.  Unguarded \subseteq {"RootNil",           *)
@@ -50,59 +61,157 @@ KeyCls  == {"idp1", "idp2", "idpenc", "att"}
 KiCls   == {"cert", "none", "rsakv", "othercert"}
 DestCls == {"eq", "wrong", "case", "slash", "query", "prefix", "suffix", "empty", "absent"}
 IssCls  == {"eq", "wrong", "case", "slash", "prefix", "suffix", "empty", "absent"}
-StatCls == {"Success", "Requester", "empty", "nocode", "absent"}
+\* top-level StatusCode: a SAML top-level code, a second-level URI used at the top
+\* (PartialLogout), an unknown URI, Success in another letter case, Value="", a Status
+\* without StatusCode, no Status
+StatCls == {"Success", "Requester", "Responder", "VersionMismatch", "PartialLogout", "unknown", "case",
+            "empty", "nocode", "absent"}
+\* the StatusCode nested inside the top-level one
+SubCls  == {"none", "PartialLogout", "AuthnFailed", "RequestDenied", "Success", "unknown"}
+\* optional StatusMessage / StatusDetail after the StatusCode
+SxCls   == {"none", "msg", "detail", "both"}
 \* fresh / edge_fresh: at least a guard band inside the bound; band: within +-5 s of it;
 \* edge_stale / stale: at least 30 s outside; future: dated after now
 TimeCls == {"fresh", "edge_fresh", "band", "edge_stale", "stale", "future", "absent", "malformed"}
 
-VARIABLES cfg, in, pc, cur, path, doc, sel, cert, verdict, step
-vars == <<cfg, in, pc, cur, path, doc, sel, cert, verdict, step>>
+VARIABLES cfg, in, pc, cur, path, doc, roots, sel, cert, verdict, step
+vars == <<cfg, in, pc, cur, path, doc, roots, sel, cert, verdict, step>>
+
+----------------------------------------------------------------------------
+(* trust configurations of the ServiceProvider.  md: the KeyDescriptors of  *)
+(* sp.IDPMetadata in order (use, certificates by key name); mdnil: no       *)
+(* IDPMetadata at all; pin: IDPCertificate; fp/alg: IDPCertificateFinger-   *)
+(* print of that key's certificate / IDPCertificateFingerprintAlgorithm.    *)
+
+KD(use, certs) == [use |-> use, certs |-> certs]
+MdOne   == << KD("signing", <<"idp1">>) >>
+MdTwo   == << KD("signing", <<"idp1">>), KD("", <<"idp2">>), KD("encryption", <<"idpenc">>) >>
+MdOther == << KD("signing", <<"idp2">>) >>
+TC0 == [mdnil |-> FALSE, md |-> << >>, pin |-> "none", fp |-> "none", alg |-> "none"]
+
+TrustCls == {"one", "two", "unspec", "multi", "enconly", "encsig", "other", "nokeys",
+             "pin", "pin_same", "pin_other", "pin_two", "pin2_one", "pin_nomd",
+             "fp", "fp_same", "fp_other", "fp512_two", "fp2_one",
+             "fp_badalg", "fp_noalg", "pin_fp"}
+TrustOf(t) ==
+  CASE t = "one"       -> [TC0 EXCEPT !.md = MdOne]
+    [] t = "two"       -> [TC0 EXCEPT !.md = MdTwo]
+    [] t = "unspec"    -> [TC0 EXCEPT !.md = << KD("", <<"idp1">>) >>]                  \* use omitted
+    [] t = "multi"     -> [TC0 EXCEPT !.md = << KD("signing", <<"idp2", "idp1">>) >>]   \* several in one descriptor
+    [] t = "enconly"   -> [TC0 EXCEPT !.md = << KD("encryption", <<"idp1">>) >>]
+    [] t = "encsig"    -> [TC0 EXCEPT !.md = << KD("encryption", <<"idp1">>), KD("signing", <<"idp2">>) >>]
+    [] t = "other"     -> [TC0 EXCEPT !.md = MdOther]
+    [] t = "nokeys"    -> TC0
+    \* pinned certificate x what the metadata lists at the same time
+    [] t = "pin"       -> [TC0 EXCEPT !.pin = "idp1"]
+    [] t = "pin_same"  -> [TC0 EXCEPT !.pin = "idp1", !.md = MdOne]
+    [] t = "pin_other" -> [TC0 EXCEPT !.pin = "idp1", !.md = MdOther]
+    [] t = "pin_two"   -> [TC0 EXCEPT !.pin = "idp1", !.md = MdTwo]
+    [] t = "pin2_one"  -> [TC0 EXCEPT !.pin = "idp2", !.md = MdOne]
+    [] t = "pin_nomd"  -> [TC0 EXCEPT !.pin = "idp1", !.mdnil = TRUE]
+    \* fingerprint x what the metadata lists at the same time
+    [] t = "fp"        -> [TC0 EXCEPT !.fp = "idp1", !.alg = "sha256"]
+    [] t = "fp_same"   -> [TC0 EXCEPT !.fp = "idp1", !.alg = "sha256", !.md = MdOne]
+    [] t = "fp_other"  -> [TC0 EXCEPT !.fp = "idp1", !.alg = "sha256", !.md = MdOther]
+    [] t = "fp512_two" -> [TC0 EXCEPT !.fp = "idp1", !.alg = "sha512", !.md = MdTwo]
+    [] t = "fp2_one"   -> [TC0 EXCEPT !.fp = "idp2", !.alg = "sha512", !.md = MdOne]
+    \* settings the field documentation excludes
+    [] t = "fp_badalg" -> [TC0 EXCEPT !.fp = "idp1", !.alg = "sha1", !.md = MdOne]
+    [] t = "fp_noalg"  -> [TC0 EXCEPT !.fp = "idp1", !.md = MdOne]
+    [] t = "pin_fp"    -> [TC0 EXCEPT !.pin = "idp1", !.fp = "idp1", !.alg = "sha256", !.md = MdOne]
+TC == TrustOf(cfg.trust)
+SeqRange(q) == { q[i] : i \in DOMAIN q }
 
 ----------------------------------------------------------------------------
 (* input families *)
 
 Base == [entry |-> "form", framing |-> "ok", root |-> "ok", sig |-> "root", key |-> "idp1", ki |-> "cert",
-         dest |-> "eq", iss |-> "eq", status |-> "Success", time |-> "fresh"]
+         dest |-> "eq", iss |-> "eq", status |-> "Success", sub |-> "none", sx |-> "none", time |-> "fresh",
+         trust |-> "one"]
 
-Fields == {"framing", "root", "sig", "key", "ki", "dest", "iss", "status", "time"}
+\* the families are sets of extended inputs: the fields of the message plus the trust
+\* configuration it is sent to (Init splits them into cfg and in)
+Fields     == {"framing", "root", "sig", "key", "ki", "dest", "iss", "status", "sub", "sx", "time", "trust"}
+MsgFields  == Fields \ {"trust"}
+\* the fields crossed pairwise with each other (the Status structure and the trust
+\* configuration have their own families below)
+PairFields == MsgFields \ {"sub", "sx"}
 FieldDom(f) == CASE f = "framing" -> FramingCls [] f = "root" -> RootCls [] f = "sig" -> SigCls
                  [] f = "key" -> KeyCls [] f = "ki" -> KiCls [] f = "dest" -> DestCls
-                 [] f = "iss" -> IssCls [] f = "status" -> StatCls [] f = "time" -> TimeCls
+                 [] f = "iss" -> IssCls [] f = "status" -> StatCls [] f = "sub" -> SubCls [] f = "sx" -> SxCls
+                 [] f = "time" -> TimeCls [] f = "trust" -> TrustCls
 Vary(b, f, v) == [b EXCEPT ![f] = v]
 
-Singles(b) == UNION { { Vary(b, f, v) : v \in FieldDom(f) } : f \in Fields }
-Pairs(b)   == UNION { UNION { { Vary(Vary(b, f, v), g, w) : v \in FieldDom(f), w \in FieldDom(g) } :
-                              g \in Fields \ {f} } : f \in Fields }
-\* triples over the fields that decide the verdict of a well-framed message
-CoreFields == {"sig", "key", "ki", "dest", "iss", "status", "time"}
-Triples(b) == UNION { UNION { UNION { { Vary(Vary(Vary(b, f, v), g, w), h, x) :
-                                          v \in FieldDom(f) \ {b[f]}, w \in FieldDom(g) \ {b[g]}, x \in FieldDom(h) \ {b[h]} } :
-                                      h \in CoreFields \ {f, g} } : g \in CoreFields \ {f} } : f \in CoreFields }
+Singles(b) == UNION { { Vary(b, f, v) : v \in FieldDom(f) } : f \in MsgFields }
+\* (field index, value) pairs; pairs and triples take them at increasing indexes
+\* (one comprehension each: TLC's UNION of many large sets is quadratic)
+PairSeq == <<"framing", "root", "sig", "key", "ki", "dest", "iss", "status", "time">>
+\* the fields that decide the verdict of a well-framed message
+CoreSeq == <<"sig", "key", "ki", "dest", "iss", "status", "time">>
+IV(seq)     == UNION { { <<i, v>> : v \in FieldDom(seq[i]) } : i \in DOMAIN seq }
+IVx(seq, b) == UNION { { <<i, v>> : v \in FieldDom(seq[i]) \ {b[seq[i]]} } : i \in DOMAIN seq }
+Pairs(b) == { Vary(Vary(b, PairSeq[p[1]], p[2]), PairSeq[q[1]], q[2]) :
+                <<p, q>> \in { t \in IV(PairSeq) \X IV(PairSeq) : t[1][1] < t[2][1] } }
+CorePairs(b) == { Vary(Vary(b, CoreSeq[p[1]], p[2]), CoreSeq[q[1]], q[2]) :
+                    <<p, q>> \in { t \in IVx(CoreSeq, b) \X IVx(CoreSeq, b) : t[1][1] < t[2][1] } }
+Triples(b) == { Vary(Vary(Vary(b, CoreSeq[p[1]], p[2]), CoreSeq[q[1]], q[2]), CoreSeq[r[1]], r[2]) :
+                  <<p, q, r>> \in { t \in IVx(CoreSeq, b) \X IVx(CoreSeq, b) \X IVx(CoreSeq, b) :
+                                    t[1][1] < t[2][1] /\ t[2][1] < t[3][1] } }
+
+\* the trust family: who signed x what KeyInfo names x where the Signature sits
+Signers(b, SS) == { [b EXCEPT !.key = k, !.ki = c, !.sig = s] : k \in KeyCls, c \in KiCls, s \in SS }
+\* the Status family: top-level code x nested code x StatusMessage / StatusDetail
+Statuses(b) == { [b EXCEPT !.status = t, !.sub = u, !.sx = e] : t \in StatCls, u \in SubCls, e \in SxCls }
 
 WithEntry(S, E) == { [x EXCEPT !.entry = e] : x \in S, e \in E }
-\* the inflate bound only exists in the redirect encoding
-Sensible(x) == x.framing \in {"bomb", "bombvalid"} => x.entry \in RedirEntries
+WithTrust(S, T) == { [x EXCEPT !.trust = t] : x \in S, t \in T }
+Sensible(x) == \* the inflate bound only exists in the redirect encoding
+               /\ x.framing \in {"bomb", "bombvalid"} => x.entry \in RedirEntries
+               \* a nested code needs a StatusCode to sit in, a StatusMessage a Status element
+               /\ x.sub # "none" => x.status \notin {"nocode", "absent"}
+               /\ x.sx # "none" => x.status # "absent"
 
-Cfgs     == { [trust |-> t, mid |-> m] : t \in {"one", "two"}, m \in {"90s", "10s", "1h"} }
-CfgsMain == { [trust |-> t, mid |-> "90s"] : t \in {"one", "two"} }
+Mids == {"90s", "10s", "1h"}
+Old2 == {"one", "two"}                  \* metadata-only trust, one / several certificates
+Both == {"form", "redirect"}
 
-InitQ == \/ /\ cfg \in Cfgs
-            /\ in \in WithEntry(Singles(Base), Entries)
-         \/ /\ cfg \in CfgsMain
-            /\ in \in WithEntry(Pairs(Base), {"form", "redirect"})
-InitT == \/ /\ cfg \in Cfgs
-            /\ in \in WithEntry(Singles(Base) \cup Pairs(Base), Entries)
-         \/ /\ cfg \in CfgsMain
-            /\ in \in WithEntry(Triples(Base), {"form", "redirect"})
+\* The families (constants, evaluated once).  Quick: single and pairwise deviations;
+\* thorough: pairs through every entry point and triples over the deciding fields.
+Q == Tier = "q"
+\* configurations where the metadata lists a key the configuration does not trust, or several
+TrustMain == {"multi", "encsig", "pin_other", "pin_two", "pin2_one", "fp_other", "fp512_two"}
+\* metadata-only trust with one / several certificates x deviations        (x Mids)
+F1 == WithEntry(WithTrust(IF Q THEN Singles(Base) ELSE Singles(Base) \cup Pairs(Base), Old2), Entries)
+F2 == WithEntry(WithTrust(IF Q THEN Pairs(Base) ELSE Triples(Base), Old2), Both)
+\* every trust configuration x every single deviation (thorough: x pairs of deciding fields)
+F3 == WithEntry(WithTrust(Singles(Base), TrustCls), IF Q THEN Both ELSE Entries)
+F4 == IF Q THEN {} ELSE WithEntry(WithTrust(CorePairs(Base), TrustMain), Both)
+\* every trust configuration x signer x KeyInfo, through every entry point; x Signature position
+F5 == WithEntry(WithTrust(Signers(Base, {"root"}), TrustCls), Entries)
+F6 == WithEntry(WithTrust(Signers(Base, IF Q THEN {"moved", "dup_am"} ELSE SigCls), TrustCls), Both)
+\* every trust configuration x the valid message, through every entry point      (x Mids)
+F7 == WithEntry(WithTrust({Base}, TrustCls), Entries)
+\* the Status structure, through every entry point; under other trust configurations; and
+\* (thorough) around every single deviation
+F8 == WithEntry(Statuses(Base), Entries)
+F9 == WithEntry(WithTrust(Statuses(Base), IF Q THEN {"pin_two"} ELSE TrustCls), Both)
+F10 == IF Q THEN {}
+       ELSE WithEntry({ [y EXCEPT !.status = t, !.sub = u, !.sx = e] :
+                          y \in Singles(Base), t \in StatCls, u \in SubCls, e \in {"none", "both"} }, Both)
 
+MsgOf(x) == [f \in (DOMAIN x) \ {"trust"} |-> x[f]]
 Direct(e) == e \in {"form", "redirect"}
+Start(x, m) == /\ Sensible(x)
+               /\ cfg = [trust |-> x.trust, mid |-> m]
+               /\ in = MsgOf(x)
 
-Init == /\ CASE Tier = "q" -> InitQ [] Tier = "t" -> InitT
-        /\ Sensible(in)
+Init == /\ \/ \E x \in F1 \cup F7, m \in Mids : Start(x, m)
+           \/ \E x \in F2 \cup F3 \cup F4 \cup F5 \cup F6 \cup F8 \cup F9 \cup F10 : Start(x, "90s")
         /\ pc = IF Direct(in.entry) THEN "B64" ELSE "Dispatch"
         /\ cur = IF Direct(in.entry) THEN "main" ELSE "unset"
         /\ path = IF in.entry = "form" THEN "form" ELSE IF in.entry = "redirect" THEN "redirect" ELSE "unset"
         /\ doc = [id |-> "", sigs |-> <<>>]
+        /\ roots = {}
         /\ sel = 0 /\ cert = "none" /\ verdict = "none" /\ step = "none"
 
 ----------------------------------------------------------------------------
@@ -143,13 +252,13 @@ Unsigned == [id |-> "x", sigs |-> << >>]
 
 Keep == UNCHANGED <<cfg, in>>
 Finish(v, why) == /\ pc' = "done" /\ verdict' = v /\ step' = why
-                  /\ UNCHANGED <<cur, path, doc, sel, cert>>
+                  /\ UNCHANGED <<cur, path, doc, roots, sel, cert>>
 Reject(why) == Finish("reject", why)
-Goto(l) == pc' = l /\ UNCHANGED <<cur, path, doc, sel, cert, verdict, step>>
+Goto(l) == pc' = l /\ UNCHANGED <<cur, path, doc, roots, sel, cert, verdict, step>>
 \* an unguarded dereference panics on the pinned tree; guarded it is an error
 Deref(name, why) == IF name \in Unguarded THEN Finish("panic", why) ELSE Reject(why)
 
-\* :1627 a non-empty SAMLResponse query parameter selects the redirect decoder,
+\* :1646 a non-empty SAMLResponse query parameter selects the redirect decoder,
 \* otherwise the POST form value (empty when there is none) goes to the form decoder
 InQuery == CASE in.entry \in {"req_get", "req_both_q"} -> "main" [] in.entry = "req_both_f" -> "decoy" [] OTHER -> "nothing"
 InForm  == CASE in.entry \in {"req_post", "req_both_f"} -> "main" [] in.entry = "req_both_q" -> "decoy" [] OTHER -> "nothing"
@@ -157,45 +266,69 @@ Dispatch == /\ pc = "Dispatch" /\ Keep
             /\ LET qEmpty == InQuery = "nothing" \/ (InQuery = "main" /\ in.framing = "empty")
                IN /\ cur'  = IF qEmpty THEN InForm ELSE InQuery
                   /\ path' = IF qEmpty THEN "form" ELSE "redirect"
-            /\ pc' = "B64" /\ UNCHANGED <<doc, sel, cert, verdict, step>>
+            /\ pc' = "B64" /\ UNCHANGED <<doc, roots, sel, cert, verdict, step>>
 
 \* framing of the byte string now being decoded
 EF == CASE cur = "main" -> in.framing [] cur = "decoy" -> "ok" [] OTHER -> "empty"
 
-\* :1645 / :1685
+\* :1664 / :1709
 B64 == /\ pc = "B64" /\ Keep
        /\ IF EF = "notb64" THEN Reject("Base64")
           ELSE Goto(IF path = "redirect" THEN "Inflate" ELSE "RoundTrip")
-\* :1692 raw deflate, at most 10 MB (an empty string is not a deflate stream)
+\* :1716 raw deflate, at most 10 MB (an empty string is not a deflate stream)
 Inflate == /\ pc = "Inflate" /\ Keep
            /\ IF EF \in {"empty", "garbage", "wrongenc", "bomb", "bombvalid", "truncated"}
                 THEN Reject("Inflate") ELSE Goto("RoundTrip")
-\* :1653 / :1698 xml-roundtrip-validator
+\* :1672 / :1722 xml-roundtrip-validator
 RoundTrip == /\ pc = "RoundTrip" /\ Keep
              /\ IF EF \in {"garbage", "wrongenc", "unstable"} THEN Reject("RoundTrip") ELSE Goto("Parse")
-\* :1658 / :1703 etree
+\* :1677 / :1727 etree
 Parse == /\ pc = "Parse" /\ Keep
          /\ IF EF = "truncated" THEN Reject("Parse") ELSE Goto("Root")
-\* :1663 / :1708 doc.Root() is nil for a document without an element
+\* :1682 / :1732 doc.Root() is nil for a document without an element
 Root == /\ pc = "Root" /\ Keep
         /\ IF EF \in {"empty", "rootless", "text"} THEN Deref("RootNil", "NoRoot")
            ELSE /\ doc' = IF cur = "decoy" \/ EF = "leading" THEN Unsigned ELSE DocOf(in)
-                /\ pc' = "SigFind" /\ UNCHANGED <<cur, path, sel, cert, verdict, step>>
+                /\ pc' = "SigFind" /\ UNCHANGED <<cur, path, roots, sel, cert, verdict, step>>
 
-\* validateSignature :1264 exactly one ds:Signature child of the root, by namespace
+\* validateSignature :1283 exactly one ds:Signature child of the root, by namespace
 DirectSigs == { i \in DOMAIN doc.sigs : doc.sigs[i].where = "direct" }
 SigFind == /\ pc = "SigFind" /\ Keep
            /\ IF DirectSigs = {} THEN Reject("SigAbsent")
               ELSE IF Cardinality(DirectSigs) > 1 THEN Reject("SigDup")
-              ELSE Goto("KeyInfoDrop")
-\* :1273 trusted roots: metadata certificates with use "signing" or no use
-Roots == IF cfg.trust = "one" THEN {"idp1"} ELSE {"idp1", "idp2"}
-\* :1315 a KeyInfo without X509Certificate is removed from the direct Signature
+              ELSE Goto("Roots")
+\* getIDPSigningCerts :385 every certificate of the key descriptors whose use is
+\* "signing" or missing; none at all is an error
+MdSigningCerts(t) == UNION { SeqRange(t.md[i].certs) : i \in { j \in DOMAIN t.md : t.md[j].use \in {"", "signing"} } }
+\* validateSignature :1291-1313 the trust roots: three branches, each needs IDPMetadata,
+\*   neither fingerprint setting nor pinned certificate -> the metadata signing certificates
+\*   fingerprint and algorithm, no pinned certificate   -> getCertBasedOnFingerprint :428:
+\*       the X509Certificate in the KeyInfo of the Signature child, if its digest under
+\*       the configured algorithm equals the configured fingerprint
+\*   pinned certificate, neither fingerprint setting     -> that certificate alone
+\* and no root at all is an error
+SetRoots(R) == /\ roots' = R /\ pc' = "KeyInfoDrop"
+               /\ UNCHANGED <<cur, path, doc, sel, cert, verdict, step>>
+Roots == /\ pc = "Roots" /\ Keep
+         /\ LET t == TC
+                s == doc.sigs[CHOOSE j \in DirectSigs : TRUE]
+            IN IF t.mdnil THEN Reject("NoRoots")
+               ELSE IF t.fp = "none" /\ t.alg = "none" /\ t.pin = "none"
+                 THEN (IF MdSigningCerts(t) = {} THEN Reject("NoSigningCert") ELSE SetRoots(MdSigningCerts(t)))
+               ELSE IF t.fp # "none" /\ t.alg # "none" /\ t.pin = "none"
+                 THEN (IF s.shape = "bad" \/ s.ki \in {"none", "rsakv"} THEN Reject("FpNoCert")
+                       ELSE IF t.alg \notin {"sha256", "sha512"} THEN Reject("FpAlgorithm")
+                       ELSE IF s.ki # t.fp THEN Reject("FpMismatch")
+                       ELSE SetRoots({s.ki}))
+               ELSE IF t.fp = "none" /\ t.alg = "none" /\ t.pin # "none"
+                 THEN SetRoots({t.pin})
+               ELSE Reject("NoRoots")
+\* :1334 a KeyInfo without X509Certificate is removed from the direct Signature
 KeyInfoDrop == /\ pc = "KeyInfoDrop" /\ Keep
                /\ LET i == CHOOSE j \in DirectSigs : TRUE
                   IN doc' = IF doc.sigs[i].ki \in {"none", "rsakv"}
                               THEN [doc EXCEPT !.sigs[i].ki = "none"] ELSE doc
-               /\ pc' = "DsigFind" /\ UNCHANGED <<cur, path, sel, cert, verdict, step>>
+               /\ pc' = "DsigFind" /\ UNCHANGED <<cur, path, roots, sel, cert, verdict, step>>
 \* goxmldsig findSignature: the whole subtree in document order; every Signature met is
 \* shape-checked; the first whose Reference is "" or "#<root ID>" is taken
 Stops(i) == doc.sigs[i].shape = "bad" \/ doc.sigs[i].ref \in {"", doc.id}
@@ -205,19 +338,20 @@ DsigFind == /\ pc = "DsigFind" /\ Keep
                   ELSE LET i == CHOOSE j \in S : \A k \in S : j <= k
                        IN IF doc.sigs[i].shape = "bad" THEN Reject("SigShape")
                           ELSE /\ sel' = i /\ pc' = "DsigCert"
-                               /\ UNCHANGED <<cur, path, doc, cert, verdict, step>>
+                               /\ UNCHANGED <<cur, path, doc, roots, cert, verdict, step>>
 \* verifyCertificate: KeyInfo certificate must be a root; without KeyInfo the only root is used
+\* (a list: the same certificate twice counts twice - the configurations here list each once)
 DsigCert == /\ pc = "DsigCert" /\ Keep
             /\ LET s == doc.sigs[sel]
                IN IF s.ki = "none"
-                    THEN IF Cardinality(Roots) = 1
-                           THEN /\ cert' = (CHOOSE r \in Roots : TRUE) /\ pc' = "DsigDigest"
-                                /\ UNCHANGED <<cur, path, doc, sel, verdict, step>>
+                    THEN IF Cardinality(roots) = 1
+                           THEN /\ cert' = (CHOOSE r \in roots : TRUE) /\ pc' = "DsigDigest"
+                                /\ UNCHANGED <<cur, path, doc, roots, sel, verdict, step>>
                            ELSE Reject("SigNoCert")
                   ELSE IF s.ki = "rsakv" THEN Reject("SigNoCert")
-                  ELSE IF s.ki \in Roots
+                  ELSE IF s.ki \in roots
                          THEN /\ cert' = s.ki /\ pc' = "DsigDigest"
-                              /\ UNCHANGED <<cur, path, doc, sel, verdict, step>>
+                              /\ UNCHANGED <<cur, path, doc, roots, sel, verdict, step>>
                          ELSE Reject("SigUntrustedCert")
 \* validateSignature (dsig): enveloped transform removes the selected Signature, digest compared
 DsigDigest == /\ pc = "DsigDigest" /\ Keep
@@ -226,25 +360,26 @@ DsigDigest == /\ pc = "DsigDigest" /\ Keep
 DsigVerify == /\ pc = "DsigVerify" /\ Keep
               /\ IF doc.sigs[sel].key # cert THEN Reject("SigValue") ELSE Goto("Unmarshal")
 
-\* :1669 / :1714 xml.Unmarshal into LogoutResponse: element name and namespace, RelaxedTime
+\* :1693 / :1743 xml.Unmarshal into LogoutResponse: element name and namespace, RelaxedTime
 Unmarshal == /\ pc = "Unmarshal" /\ Keep
              /\ IF in.root # "ok" \/ in.time = "malformed" THEN Reject("Unmarshal") ELSE Goto("Dest")
-\* :1723
+\* :1752
 Dest == /\ pc = "Dest" /\ Keep
         /\ IF in.dest # "eq" THEN Reject("Destination") ELSE Goto("Fresh")
-\* :1727 wall clock; an absent IssueInstant is the zero instant; inside the guard band either way
+\* :1757 wall clock; an absent IssueInstant is the zero instant; inside the guard band either way
 Fresh == /\ pc = "Fresh" /\ Keep
          /\ \E ok \in (IF in.time = "band" THEN BOOLEAN ELSE { in.time \in {"fresh", "edge_fresh", "future"} }) :
               IF ok THEN Goto("Issuer") ELSE Reject("IssueInstant")
-\* :1731 resp.Issuer is a pointer
+\* :1760 resp.Issuer is a pointer
 Issuer == /\ pc = "Issuer" /\ Keep
           /\ IF in.iss = "absent" THEN Deref("IssuerNil", "IssuerAbsent")
              ELSE IF in.iss # "eq" THEN Reject("Issuer") ELSE Goto("Status")
-\* :1734
+\* :1763 resp.Status.StatusCode.Value, the top-level code, compared with Success; what the
+\* code nests, StatusMessage and StatusDetail are unmarshalled and not looked at
 Status == /\ pc = "Status" /\ Keep
           /\ IF in.status # "Success" THEN Reject("Status") ELSE Finish("accept", "none")
 
-Next == Dispatch \/ B64 \/ Inflate \/ RoundTrip \/ Parse \/ Root \/ SigFind \/ KeyInfoDrop \/ DsigFind
+Next == Dispatch \/ B64 \/ Inflate \/ RoundTrip \/ Parse \/ Root \/ SigFind \/ Roots \/ KeyInfoDrop \/ DsigFind
         \/ DsigCert \/ DsigDigest \/ DsigVerify \/ Unmarshal \/ Dest \/ Fresh \/ Issuer \/ Status
 Spec == Init /\ [][Next]_vars
 
@@ -258,8 +393,23 @@ Spec == Init /\ [][Next]_vars
 (*    reported valid, and every other input yields an error."               *)
 Done == pc = "done"
 
-\* certificates the IdP's metadata offers for signing
-Trusted == IF cfg.trust = "one" THEN {"idp1"} ELSE {"idp1", "idp2"}
+\* "a trusted IdP certificate": what this ServiceProvider is configured to trust -
+\*   a pinned IDPCertificate        => that certificate and no other, whatever the metadata lists
+\*   else a certificate fingerprint => only a certificate with that fingerprint
+\*   else the IdP's metadata        => the certificates it offers for signing: key descriptors
+\*                                     with use "signing" or without a use (both uses)
+T == TrustOf(cfg.trust)
+OfferedForSigning(k) == \E i \in DOMAIN T.md : /\ T.md[i].use # "encryption"
+                                               /\ \E j \in DOMAIN T.md[i].certs : T.md[i].certs[j] = k
+Trusted == IF T.pin # "none" THEN {T.pin}
+           ELSE IF T.fp # "none" THEN {T.fp}
+           ELSE { k \in KeyCls : OfferedForSigning(k) }
+\* settings the documentation of the fields excludes (a pinned certificate together with a
+\* fingerprint; a fingerprint without a known digest algorithm): nothing has to be accepted
+CfgOdd == \/ T.pin # "none" /\ T.fp # "none"
+          \/ T.fp # "none" /\ T.alg \notin {"sha256", "sha512"}
+\* no IdP is configured: no message "was issued by the configured IdP"
+NoIdP == T.mdnil
 D == DocOf(in)
 
 \* the byte string does not decode to a document whose root is the message
@@ -275,29 +425,33 @@ SigClean == SigVerifies /\ in.sig = "root" /\ in.ki = "cert"
 NotLogoutResponse == in.root # "ok"
 DestBad   == in.dest # "eq"
 IssBad    == in.iss # "eq"
+\* "has status Success": the top-level StatusCode, whatever it nests
 StatusBad == in.status # "Success"
+\* Success with a second-level code inside: the statement does not say
+StatusNested == in.sub # "none"
 Stale     == in.time \in {"edge_stale", "stale", "absent", "malformed"}
 FreshSure == in.time \in {"fresh", "edge_fresh"}
 
 TwoMessages == in.entry \in {"req_both_q", "req_both_f"}     \* the second one is unsigned
 
-MustReject == FramingBad \/ ~SigVerifies \/ NotLogoutResponse \/ DestBad \/ IssBad \/ StatusBad \/ Stale
+MustReject == FramingBad \/ ~SigVerifies \/ NotLogoutResponse \/ DestBad \/ IssBad \/ NoIdP \/ StatusBad \/ Stale
 MustAccept == /\ in.framing = "ok" /\ SigClean /\ ~NotLogoutResponse /\ ~DestBad /\ ~IssBad /\ ~StatusBad
-              /\ FreshSure /\ ~TwoMessages
+              /\ FreshSure /\ ~TwoMessages /\ ~StatusNested /\ ~CfgOdd /\ ~NoIdP
 Class == IF MustReject THEN "MustReject" ELSE IF MustAccept THEN "MustAccept" ELSE "DontCare"
 
 RejectsBad  == Done /\ MustReject => verdict = "reject"
 AcceptsGood == Done /\ MustAccept => verdict = "accept"
 ValidOnlyIfSignedFreshAddressed ==
   Done /\ verdict = "accept" => /\ ~FramingBad /\ SigVerifies /\ ~NotLogoutResponse
-                                /\ ~DestBad /\ ~IssBad /\ ~StatusBad /\ ~Stale
+                                /\ ~DestBad /\ ~IssBad /\ ~NoIdP /\ ~StatusBad /\ ~Stale
 \* every input yields nil or an error, never a panic
 Total == Done => verdict \in {"accept", "reject"}
 
-Emit == Done => PrintT(<<"VEC", ToJson([prop |-> "C18", cfg |-> cfg, in |-> in, class |-> Class,
+Emit == Done => PrintT(<<"VEC", ToJson([prop |-> "C18", cfg |-> cfg, tc |-> T, trusted |-> Trusted, in |-> in, class |-> Class,
                                         why |-> [framing |-> FramingBad, odd |-> FramingOdd, sig |-> ~SigVerifies,
                                                  sigClean |-> SigClean, root |-> NotLogoutResponse,
                                                  dest |-> DestBad, iss |-> IssBad, status |-> StatusBad,
-                                                 stale |-> Stale, fresh |-> FreshSure, two |-> TwoMessages],
+                                                 stale |-> Stale, fresh |-> FreshSure, two |-> TwoMessages,
+                                                 nested |-> StatusNested, cfgodd |-> CfgOdd, noidp |-> NoIdP],
                                         pred |-> [verdict |-> verdict, step |-> step, path |-> path, cur |-> cur]])>>)
 =============================================================================
